@@ -6,7 +6,7 @@
      initorder  {id, nv, nf, deps, outcome, order}
      conv       {id, op, k, v, a, outcome, out}
      minigo     {id, shape, exp, alt, nest, out, outcome, msg}  (the check strips prog before judging)
-     variadic / select / constuse   {id, <the fields of the case, see GoMisc.tla>, outcome, out}
+     variadic / select / constuse / maprange   {id, <the fields of the case, see GoMisc.tla>, outcome, out}
      pkginit    {id, imps, vars, inits, form, outcome, out}   a program of several packages (PkgInit.tla)
      godata     {id, ops, outcome, out, msg}   a straight-line program over composite data (GoData.tla): ops = the Go texts
                 of its operations, out = the printed lines (integers), msg = the bytes of the panic message
@@ -90,7 +90,7 @@ MgRecSig(r) == IF r.nest.jump = ""
                      cause |-> MgCause(r), out |-> MgOutDiff(r)]
 
 (* ---- variadic, select, constuse: out = the numbers (type names for constuse) the case's program printed *)
-MiscFams == {"variadic", "select", "constuse"}
+MiscFams == {"variadic", "select", "constuse", "maprange"}
 MiscOk(r) == r.outcome = "ok" /\ r.out = MiscRef(r)
 MiscCause(r) == IF r.outcome # "ok" THEN r.outcome
                 ELSE IF r.fam = "variadic" /\ Len(r.out) > r.nfix /\ r.out[r.nfix + 1] # MiscRef(r)[r.nfix + 1] THEN "wrong-nilness"
@@ -100,6 +100,7 @@ MiscSig(r) == CASE r.fam = "variadic" -> [fam |-> "variadic", mode |-> r.mode, f
                 [] r.fam = "select" -> [fam |-> "select", cause |-> MiscCause(r),
                                         chosen |-> IF r.ready = 0 THEN "default" ELSE r.dirs[r.ready]]
                 [] r.fam = "constuse" -> [fam |-> "constuse", kind |-> r.kind, how |-> r.how, cause |-> MiscCause(r)]
+                [] r.fam = "maprange" -> [fam |-> "maprange", kt |-> r.kt, vt |-> r.vt, form |-> r.form, cause |-> MiscCause(r)]
 
 (* ---- pkginit: {id, imps, vars, inits, form, outcome, out}: out = the lines printed (numbers; -1 for anything else) by the
    program of PkgInit.tla written in source form `form` (0: one import declaration per package, variables before the
